@@ -39,10 +39,10 @@ COLORS = ["red", "#123456", "rgb(10,20,30)", "blue", "#abc", "none", None, "#00f
 T_MUTS = ["imul", "imul_str", "xf_post_scale", "xf_pre_translate", "xf_attr", "xf_reset", "xf_setitem"]
 G_MUTS = ["fill_red", "fill_opacity", "stroke_green", "stroke_opacity", "sw", "fill_rebind", "stroke_rebind", "fill_value"]
 E_MUTS = ["set", "values_item", "id"]
-PATH_MUTS = ["reify", "seg_end_x", "seg_start_y", "seg_ctrl", "seg_imul", "append", "insert", "setitem", "delitem", "iadd_str", "reverse", "seg_end_rebind", "subpath_imul", "subpath_reverse", "subpath_seg"]
+PATH_MUTS = ["setitem_str", "insert_str", "slice_del", "reify", "seg_end_x", "seg_start_y", "seg_ctrl", "seg_imul", "append", "insert", "setitem", "delitem", "iadd_str", "reverse", "seg_end_rebind", "subpath_imul", "subpath_reverse", "subpath_seg"]
 WARM = ["d", "bbox", "length", "count_subpaths", "subpath", "eq", "segments", "repr"]
 SHAPE_MUTS = ["reify", "attr"]
-POLY_MUTS = ["pt_x", "pts_append", "pts_del", "pt_imul", "pt_rebind"]
+POLY_MUTS = ["pt_x", "pts_append", "pts_del", "pt_imul", "pt_rebind", "pts_slice"]
 GROUP_MUTS = ["g_append", "g_del", "g_child_imul", "g_child_fill", "g_child_attr", "g_child_reify", "g_child_set", "g_child_seg", "g_nested"]
 SEG_MUTS = ["s_end_x", "s_start_y", "s_imul", "s_reverse", "s_ctrl", "s_end_rebind"]
 
@@ -58,15 +58,15 @@ KIND_TABLE = {
     "Quad": (["copy", "mul", "mul_str", "add_seg", "add_str"], SEG_MUTS),
     "Cubic": (["copy", "mul", "mul_str", "add_seg", "add_str"], SEG_MUTS),
     "Arc": (["copy", "mul", "mul_str", "add_seg", "add_str"], SEG_MUTS),
-    "Path": (["copy", "mul", "mul_str", "abs", "PathOf", "add_str", "add_path", "add_seg", "radd_seg", "add_shape", "radd_str"], T_MUTS + G_MUTS + E_MUTS + PATH_MUTS),
-    "Subpath": (["copy", "PathOf", "mul", "mul_str", "add_str", "add_seg"], ["sub_imul", "sub_seg_end_x", "sub_reverse", "sub_seg_imul", "sub_iadd_str", "sub_setitem", "back_imul", "back_seg_end_x", "back_reify", "back_fill_red"]),
-    "Rect": (["copy", "ctor", "mul", "mul_str", "abs", "PathOf", "add_shape"], T_MUTS + G_MUTS + E_MUTS + SHAPE_MUTS),
-    "RectR": (["copy", "ctor", "mul", "mul_str", "abs", "PathOf"], T_MUTS + G_MUTS + E_MUTS + SHAPE_MUTS),
-    "Circle": (["copy", "ctor", "mul", "mul_str", "abs", "PathOf", "add_shape"], T_MUTS + G_MUTS + E_MUTS + SHAPE_MUTS),
-    "Ellipse": (["copy", "ctor", "mul", "mul_str", "abs", "PathOf"], T_MUTS + G_MUTS + E_MUTS + SHAPE_MUTS),
-    "SimpleLine": (["copy", "ctor", "mul", "mul_str", "abs", "PathOf"], T_MUTS + G_MUTS + E_MUTS + SHAPE_MUTS),
-    "Polyline": (["copy", "ctor", "mul", "mul_str", "abs", "PathOf"], T_MUTS + G_MUTS + E_MUTS + SHAPE_MUTS + POLY_MUTS),
-    "Polygon": (["copy", "ctor", "mul", "mul_str", "abs", "PathOf", "add_shape"], T_MUTS + G_MUTS + E_MUTS + SHAPE_MUTS + POLY_MUTS),
+    "Path": (["matmul_shape", "copy", "mul", "mul_str", "abs", "PathOf", "add_str", "add_path", "add_seg", "radd_seg", "add_shape", "radd_str"], T_MUTS + G_MUTS + E_MUTS + PATH_MUTS),
+    "Subpath": (["copy", "PathOf", "mul", "mul_str", "add_str", "add_seg"], ["sub_imul", "sub_seg_end_x", "sub_reverse", "sub_seg_imul", "sub_iadd_str", "sub_setitem", "sub_delitem", "back_imul", "back_seg_end_x", "back_reify", "back_fill_red"]),
+    "Rect": (["matmul_shape", "copy", "ctor", "mul", "mul_str", "abs", "PathOf", "add_shape"], T_MUTS + G_MUTS + E_MUTS + SHAPE_MUTS),
+    "RectR": (["matmul_shape", "copy", "ctor", "mul", "mul_str", "abs", "PathOf"], T_MUTS + G_MUTS + E_MUTS + SHAPE_MUTS),
+    "Circle": (["matmul_shape", "copy", "ctor", "mul", "mul_str", "abs", "PathOf", "add_shape"], T_MUTS + G_MUTS + E_MUTS + SHAPE_MUTS),
+    "Ellipse": (["matmul_shape", "copy", "ctor", "mul", "mul_str", "abs", "PathOf"], T_MUTS + G_MUTS + E_MUTS + SHAPE_MUTS),
+    "SimpleLine": (["matmul_shape", "copy", "ctor", "mul", "mul_str", "abs", "PathOf"], T_MUTS + G_MUTS + E_MUTS + SHAPE_MUTS),
+    "Polyline": (["matmul_shape", "copy", "ctor", "mul", "mul_str", "abs", "PathOf"], T_MUTS + G_MUTS + E_MUTS + SHAPE_MUTS + POLY_MUTS),
+    "Polygon": (["matmul_shape", "copy", "ctor", "mul", "mul_str", "abs", "PathOf", "add_shape"], T_MUTS + G_MUTS + E_MUTS + SHAPE_MUTS + POLY_MUTS),
     "Group": (["copy", "GroupOf", "mul", "mul_str", "abs"], T_MUTS + E_MUTS + GROUP_MUTS),
     "GroupNested": (["copy", "GroupOf", "mul", "mul_str", "abs"], T_MUTS + E_MUTS + GROUP_MUTS),
     "Text": (["copy", "ctor", "mul", "mul_str", "abs"], T_MUTS + G_MUTS + E_MUTS + ["reify", "t_text", "t_x", "t_path_imul", "t_path_seg", "t_path_append"]),
@@ -510,6 +510,8 @@ def derive(se, case, x, x2):
         return x / 2, (None, None)
     if d == "mul_len":
         return x * x2, (None, None)
+    if d == "matmul_shape":
+        return x @ M, (None, None)
     if d == "radd_zero":
         return 0 + x, (None, None)
     if d == "sum_one":
@@ -668,6 +670,9 @@ def mutate(se, o, name, k, v):
             pts[_idx(k, len(pts))] *= Mx
         elif name == "pt_rebind":
             pts[_idx(k, len(pts))] = se.Point(v, v)
+        elif name == "pts_slice":
+            i = _idx(k, len(pts))
+            pts[i : i + 1] = [se.Point(v, 1), se.Point(1, v)]
         else:
             del pts[_idx(k, len(pts))]
     # ---- path
@@ -688,6 +693,17 @@ def mutate(se, o, name, k, v):
             if len(sub) == 0 or sub[0].end is None:
                 return False
             sub[0].end.x = v
+    elif name == "setitem_str":
+        if len(o) == 0:
+            return False
+        o[_idx(k, len(o))] = "L %s,%s" % (v, k % 20)
+    elif name == "insert_str":
+        o.insert(_idx(k, len(o) + 1), "L %s,%s" % (v, k % 20))
+    elif name == "slice_del":
+        if len(o) < 2:
+            return False
+        i = _idx(k, len(o) - 1)
+        del o[i : i + 1]
     elif name == "append":
         o.append(se.Line(se.Point(v, 0), se.Point(v, v)))
     elif name == "insert":
@@ -781,6 +797,10 @@ def _mut_sub(se, sub, name, k, v, Mx):
         if n == 0:
             return False
         sub[_idx(k, n)] = se.Line(se.Point(0, v), se.Point(v, v))
+    elif name == "sub_delitem":
+        if n < 2:
+            return False
+        del sub[_idx(k, n)]
     elif name == "back_imul":
         p = sub._path
         p *= Mx
